@@ -50,7 +50,7 @@ def literal_cases():
 
 
 def run(ctx):
-    ctx.regen(["tokens", "tplcl"])
+    ctx.regen(["tokens", "tplcl", "tplfirst"])
     ctx.prove("C27")
     rng = ctx.rng
     cases = literal_cases()
@@ -82,13 +82,35 @@ def run(ctx):
     # left recursion hidden behind nullable prefixes: the compile verdict (RecursiveError) must agree with the model
     for rules in tplm.leftrec_family():
         cases.append(("hidden-leftrec", tplm.grammar_text(rules).encode()))
+    # a rule whose body fails to compile x a reference to it that a later pass (CheckConflicts / First) reaches:
+    # every error kind of compileExpr combined with every reference context
+    BROKEN = ['"@@"', '"=:="', "'\\u00e9'", "'é'", "'a'", '"9"', "'\\x9e'", '"é"', 'INT "@@"', '?"@@"', '*\'a\'', '"@@" | INT', 'INT | "@@"',
+              'INT % "@@"', '"@@" % ","', 'IDENT ++ "@@"', '("@@")', '+("=:=" IDENT)', 'undefinedName', 'undefinedName "@@"']
+    CONTEXTS = ['doc = a | INT\n', 'doc = INT | a\n', 'doc = INT | ?"x" a\n', 'doc = INT | *"x" a IDENT\n', 'doc = *a | INT\n',
+                'doc = +a | INT\n', 'doc = ?a STRING | INT\n', 'doc = a % "," | INT\n', 'doc = (?"x" % a) | INT\n',
+                'doc = a ++ IDENT | INT\n', 'doc = b | INT\nb = ?"x" a\n', 'doc = b | INT\nb = a | STRING\n', 'doc = INT (a | STRING)\n',
+                'doc = INT *(a "," | STRING)\n', 'doc = INT a | STRING\n', 'doc = a\n', 'doc = INT | "" a\n', 'doc = INT | SPACE a\n']
+    for ctxg in CONTEXTS:
+        for body in BROKEN:
+            cases.append(("broken-rule-x-reference", (ctxg + "a = " + body + "\n").encode()))
+            cases.append(("broken-rule-x-reference", ("a = " + body + "\n" + ctxg).encode()))     # the broken rule declared first
     nfixed = len(cases)
     # malformed grammar texts: C31's malformed stream + mutated structured grammars
     for t in g31.MISSING:
         cases.append(("malformed-list", t.encode()))
     for _ in range(ctx.n(1200, 60000)):
         k = rng.below(10)
-        if k < 5:
+        if k < 2:
+            # seeded: a random grammar one of whose rules is replaced by a broken body
+            rules = tplm.gen_grammar(rng, recursive=True)
+            lines = ["%s = %s" % (n, " ".join(tplm.words(e))) for n, e in rules]
+            j = rng.below(len(lines))
+            lines[j] = "%s = %s" % (rules[j][0], rng.choice(BROKEN))
+            if len(lines) > 1 and rng.below(2):
+                lines[0] += " | " + rules[j][0]
+            text = ("\n".join(lines) + "\n").encode()
+            cat = "broken-rule-seeded"
+        elif k < 5:
             rules = tplm.gen_grammar(rng, recursive=True)
             ws = []
             for n, e in rules:
@@ -146,7 +168,9 @@ def run(ctx):
               rule="all 256 byte values in CHAR and STRING literals as \\xHH and \\OOO, printable ones also raw and in backquotes, raw "
                    "non-ASCII bytes; every spelling of the regenerated tokens table (%d) as \"s\", with last char doubled, truncated, "
                    "with a blank, and as 's'; odd literals; every identifier of the idents table, undefined ones; duplicate / "
-                   "self- / mutually-recursive rules; 160 grammars with left recursion hidden behind nullable prefixes; C31's missing-factor texts; seeded: mutated structured grammars, recursive "
+                   "self- / mutually-recursive rules; 20 kinds of rule bodies that fail to compile x 18 reference contexts (first item of a choice "
+                   "alternative, after nullable items, inside * + ? %% ++, through a second rule, nested choice, unreachable) in both "
+                   "declaration orders; 160 grammars with left recursion hidden behind nullable prefixes; C31's missing-factor texts; seeded: mutated structured grammars, recursive "
                    "grammars, token soups, random bytes. non-trivial = distinct text outside the byte-literal family + the 256 byte "
                    "values." % len(spellings),
               outcome_histogram=outcome, category_histogram=hist, fixed_part=nfixed)
